@@ -16,9 +16,24 @@ META = {
   "text": "Lean 4 theorems (Props/C18.lean): every epoch's allocation sums to the minted amount with each share the truncated proportion, the community pool takes the remainder and the mint account ends empty; exactly the integer part of the provision is minted; the provision is reduced exactly once per reduction period over ANY number of consecutive epochs (induction) and never before the start epoch; the reported-supply delta is characterised exactly (equal to the minted amount iff the receivers' truncated portions add up to the developer reward). Model tied to x/mint through the real app keepers.",
   "note": "Trusted: Lean kernel, engine `mint` (real keeper, bank, distribution through apptesting), SDK bank semantics. Known finding F7 (reported supply short by the receivers' truncation dust).",
  },
+ "C16": {
+  "text": "Lean 4 theorems (Props/C16.lean, 23): on every well-formed tree (any height, any fan-out m >= 2) Get, SplitAcc, SubsetAccumulation (all bound combinations), PrefixSum, TotalAccumulatedValue and ordered iteration equal the sorted-map answers; Set/Increase/Decrease never panic, preserve well-formedness (internal aggregates = leaves) and act as insert on the abstract map, hence every query is right after ANY finite insert-only history from NewTree(m) (induction) - the fragment production (x/lockup) uses. PARTIAL: Remove - only the leaf level (Get, iteration) is proved correct; range sums after Remove are wrong in the real code (known findings F4, F5, F11 with machine-checked witnesses).",
+  "note": "Trusted: Lean kernel, engine `sumtree` (bit-exact store dumps incl. internal nodes), sdk Int overflow not modelled. F3 (TotalAccumulatedValue) repaired by a fix: commit; F4/F5/F11 are keyed known findings on histories containing Remove.",
+ },
+ "C17": {
+  "text": "Lean 4 theorems (Props/C17.lean, 30), all for unbounded histories: a timer never ticks before its start, the first tick sets the epoch start to the start time, at most one tick per block, tick iff block time is strictly after the epoch end, epoch starts stay on the grid start + n*duration for every reachable state, the signal history of a timer is exactly the canonical sequence start 1, end 1, start 2, ... (each once, in order), every subscriber is invoked once per signal in registration order and its store equals the fold of exactly its successful invocations' writes whatever the other subscribers do, an out-of-gas panic (value types only) propagates and the block commits nothing.",
+  "note": "Trusted: Lean kernel, engine `epochs` (real keeper on a real multistore with scripted subscriber hooks incl. runtime panics and gas exhaustion; partial states of panicking blocks compared too). Not modelled: int64 wrap of epoch counters, time.Time overflow, subscribers writing the epochs store.",
+ },
+ "C15": {
+  "text": "Lean 4 theorems (Props/C15.lean, 13), by induction over ALL finite operation lists under the property's discipline (a decidable predicate: names created only while absent, sorted coin arguments, each op through a freshly fetched handle): recorded total shares = sum of position shares; a claim returns the per-denomination truncation of unclaimed + growth*shares and leaves the stated dust, changes only the claimer's record, and a deleted or zero-share-claimed position disappears; the claimable amount refines a ghost ledger of sum over growth events of growth*sharesThen within (number of inexact settlements)*1/2*10^-18 per denomination and is EXACT when every product is representable; operations on unknown positions, non-positive share changes and every error leave the store unchanged.",
+  "note": "Trusted: Lean kernel, engine `accum` (real osmoutils/accum on a MemDB store, full decoded store compared after every op), SDK DecCoins semantics (modelled with the proved LegacyDec operations). The one-long-lived-handle discipline is covered by the engine only.",
+ },
 }
 NOT_APPLICABLE_REASONS = {}
 ENGINES = [
+ {"name": "accum", "path": "harness/cmd/pure/accum.go", "serves_properties": ["C15"], "kind_free_text": "real osmoutils/accum on a MemDB store with big.Rat ghost-ledger oracle; replayed through the Lean model"},
+ {"name": "sumtree", "path": "harness/cmd/pure/sumtree.go", "serves_properties": ["C16"], "kind_free_text": "real osmoutils/sumtree on a MemDB store, raw node dumps + sorted-map oracle; replayed through the Lean model"},
+ {"name": "epochs", "path": "harness/cmd/pure/epochs.go", "serves_properties": ["C17"], "kind_free_text": "real x/epochs keeper with scripted subscriber hooks (ok/err/panic/out-of-gas with partial writes); replayed through the Lean model"},
  {"name": "mint", "path": "harness/engines/app/mint_test.go", "serves_properties": ["C18"], "kind_free_text": "Go test binary embedding apptesting.KeeperTestHelper: real x/mint keeper driven epoch by epoch, balances/supply observed; replayed through the Lean model"},
  {"name": "num", "path": "harness/cmd/pure/num.go", "serves_properties": ["C12"], "kind_free_text": "in-process Go driver of osmomath.BigDec/Dec with big.Rat oracle; op stream replayed through the Lean model"},
  {"name": "math", "path": "harness/cmd/pure/math.go", "serves_properties": ["C13"], "kind_free_text": "in-process driver of osmomath approximate math with 700-bit reference oracle; replayed through the Lean model"},
